@@ -95,6 +95,9 @@ def convertMCNPGeometry(mcnp_parser, lattice_params, args):
     if not args.skip_deduplication:
         dic_surface_t4, renumber = remove_duplicate_surfaces(dic_surface_t4)
         dic_volume = renumber_surfaces(dic_volume, renumber)
+        # the auxiliary planes for unions may have been merged into identical
+        # user-defined surfaces
+        union_ids = tuple(renumber[union_id] for union_id in union_ids)
 
     remove_empty_volumes(dic_volume, union_ids)
     remove_unused_volumes(dic_volume)
